@@ -215,6 +215,8 @@ def run(case, replay=None):
     if len(orc.nds) and len(orc.nds[0][2]) > 1:
         rec.tags.add("many-fronts")
     rec.cfg["constr"] = bool(prob.has_constraints())
+    from pymoode.survival.rank_and_crowding import metrics as _m
+    rec.cfg["compiled"] = bool(_m.IS_COMPILED)
     return rec
 
 
@@ -223,7 +225,8 @@ def encode(rec):
     n = len(F)
     o = rec.out["oracles"]
     ns = rec.cfg["n_survive"]
-    t = [NAME, rec.cfg["cls"], str(n), str(n if ns is None else ns), "1" if rec.cfg["constr"] else "0"]
+    t = [NAME, rec.cfg.get("metric") or "unknown", "1" if rec.cfg.get("compiled", True) else "0",
+         rec.cfg["cls"], str(n), str(n if ns is None else ns), "1" if rec.cfg["constr"] else "0"]
     t += proto.fmat(F) + proto.fmat(G.reshape(n, -1)) + proto.fmat(H.reshape(n, -1)) + proto.flist(rec.inp["CV"])
     t += proto.ilist(rec.inp["feas"].astype(int))
     t += ["SPLITS", str(len(o["splits"]))]
@@ -405,4 +408,9 @@ def oracle_C16(rec):
     return bad + [f for f in rec.frames]
 
 
-ORACLES = {"C03": oracle_C03, "C04": oracle_C04, "C16": oracle_C16}
+def oracle_C15(rec):
+    import comp_trunc
+    return comp_trunc.oracle_C15(rec)
+
+
+ORACLES = {"C03": oracle_C03, "C04": oracle_C04, "C16": oracle_C16, "C15": oracle_C15}
